@@ -246,6 +246,10 @@ def gen_lark(rng: random.Random, max_depth: int, max_width: int, malformed: bool
 
 	def tree(depth: int) -> Any:
 		width = rng.randint(0, max_width) if depth < max_depth else 0
+		if depth < max_depth and depth < 2 and rng.random() < 0.07:
+			# wide nodes (parameter / argument / element lists): positions ≥ 10 exist, with None slots anywhere among them
+			width = rng.randint(11, 26)
+			bump('node:wide')
 		children: list[Any] = []
 		for _ in range(width):
 			r = rng.random()
@@ -744,6 +748,12 @@ def search_truncation(ctx: Ctx) -> SearchResult:
 			continue
 		data = buf.getvalue()
 		seen.add(hash(data))
+		try:
+			EntryStored.load(io.BytesIO(data))
+		except Exception as e:  # noqa: BLE001 - the uncut stored form must load
+			key = 'stored-form-empty' if not data else f'stored-form-unreadable:{exc_enum(e)}'
+			res.findings.append(Finding(key=key, what=f'{label}: EntryStored.save wrote {len(data)} bytes which EntryStored.load rejects with {exc_enum(e)}', replay={'tree': label, 'sexp': lark_sexp(t)[:20000], 'bytes': data[:200].decode('ascii', 'replace')}))
+			continue
 		cuts = {0, 1, len(data) - 1, len(data) // 2, *(rng.randrange(len(data)) for _ in range(ctx.scale(12, 30)))}
 		for k in cuts:
 			res.cases += 1
@@ -758,6 +768,9 @@ def search_truncation(ctx: Ctx) -> SearchResult:
 			break
 	res.distinct = len(seen)
 	return res
+
+
+STATEMENT_FREE = ['', '\n', '\n\n\n', '   \n', '\t\n\t', ' \n  \n', '\x0c\n', '\\\n', '\\\n\n', '# only a comment\n', '# c', '\n# c\n\n', '\r\n\r\n']
 
 
 def node_facts(ep: Any) -> dict[str, tuple[str, ...]]:
@@ -791,6 +804,11 @@ def search_nodes(ctx: Ctx) -> SearchResult:
 			src, label = src.rstrip('\n') + rng.choice(['', '\n' + d['indent']]), label + ':no-final-newline'
 		proj.write(mp, src)
 		modules.append((mp, label))
+	for k, src in enumerate(STATEMENT_FREE):
+		# modules without any statement (an empty __init__.py, blank lines, white space, comments only): their tree is a bare
+		# file_input, which must be stored and restored like any other
+		proj.write(f'gen.free{k}', src)
+		modules.append((f'gen.free{k}', f'statement-free#{k}:{src!r}'))
 	for rel in pygen.real_files(ctx.thorough, rng, ctx.scale(4, 60)):
 		# snapshot into the project (first in SourceEnvPath): immune to concurrent edits of the repository
 		with open(os.path.join(common.REPO, rel), 'rb') as fh:
@@ -949,7 +967,12 @@ def guard_stream(fn: Any, ctx: Ctx) -> Stream:
 		st = Stream(fn.__name__.replace('stream_', 'entry-' if PROP == 'C15' else 'span-'))
 		st.disagreements.append({'case': case, 'op': '(budget)', 'real': 'the real code did not finish within the per-case budget', 'model': '-'})
 		return st
-	return diskproj.guarded(fn, ctx, on_timeout)
+
+	def on_error(case: Any, what: str) -> Stream:
+		st = Stream(fn.__name__.replace('stream_', 'entry-' if PROP == 'C15' else 'span-'))
+		st.disagreements.append({'case': case, 'op': '(unreadable result)', 'real': f'an observation of the real code could not be taken or encoded: {what}', 'model': '-'})
+		return st
+	return diskproj.guarded(fn, ctx, on_timeout, on_error)
 
 
 def guard_search(fn: Any, ctx: Ctx) -> Any:
@@ -957,7 +980,12 @@ def guard_search(fn: Any, ctx: Ctx) -> Any:
 		res = SearchResult(f'{fn.__name__}: budget')
 		res.findings.append(Finding(key='real-code-exceeds-budget', what=f'{fn.__name__}: the real code did not finish within the per-case budget on {case}', replay={'case': case}))
 		return res
-	return diskproj.guarded(fn, ctx, on_timeout)
+
+	def on_error(case: Any, what: str) -> SearchResult:
+		res = SearchResult(f'{fn.__name__}: unexpected exception')
+		res.findings.append(Finding(key=f"oracle-raises:{what.split(':')[0]}", what=f'{fn.__name__}: evaluating the statement on {case} raised {what}', replay={'case': case, 'exception': what}))
+		return res
+	return diskproj.guarded(fn, ctx, on_timeout, on_error)
 
 
 def run(ctx: Ctx) -> int:
